@@ -8,7 +8,7 @@ EXCLUDED = set(range(0x01, 0x08)) | set(range(0x10, 0x20)) | {0xDE, 0xDF, 0xFE, 
 IMEM = 0x100000
 
 
-KNOWN_DIVERGENT = {0xC3, 0x2E, 0x4F, 0x3E, 0x5F, 0x44, 0x45, 0x46, 0x4C, 0x4D, 0x4E, 0xD6, 0xD7,
+KNOWN_DIVERGENT = {0x2E, 0x4F, 0x3E, 0x5F, 0x44, 0x45, 0x46, 0x4C, 0x4D, 0x4E, 0xD6, 0xD7,
                    0xC4, 0xC5, 0xD4, 0xD5, 0xE3, 0xEB, 0x11}
 
 
